@@ -248,6 +248,12 @@ func (s *SCION) DecodeFromBytes(data []byte, df gopacket.DecodeFeedback) error {
 	if err != nil {
 		return err
 	}
+	// The path must fill the space that the header length leaves for it: bytes between the end
+	// of the path and the end of the header would belong to no field and be lost on serialization.
+	if actual := s.Path.Len(); actual != pathLen {
+		return serrors.New("invalid header, header length inconsistent with path length",
+			"hdrBytes", hdrBytes, "pathLen", pathLen, "actual", actual)
+	}
 	s.Contents = data[:hdrBytes]
 	s.Payload = data[hdrBytes:]
 
